@@ -477,7 +477,15 @@ pub fn addze(
             lhs.clone(),
             Expression::zext(lhs.bits(), expr_scalar("carry", 1))?,
         )?;
-        block.assign(dst, src);
+        // carry out of (RA) + CA: the sum wrapped around iff it is below (RA).
+        // The sum goes through a temporary because RT may be RA.
+        let sum = Scalar::temp(instruction.address, 32);
+        block.assign(sum.clone(), src);
+        block.assign(
+            scalar("carry", 1),
+            Expression::cmpltu(sum.clone().into(), lhs)?,
+        );
+        block.assign(dst, sum.into());
 
         block.index()
     };
@@ -1066,11 +1074,23 @@ pub fn srawi(
     // get operands
     let dst = get_register(detail.operands[0].reg())?.scalar();
     let lhs = get_register(detail.operands[1].reg())?.expression();
-    let rhs = expr_const(detail.operands[2].imm() as u64, 32);
+    let sh = detail.operands[2].imm() as u64;
+    let rhs = expr_const(sh, 32);
 
     let block_index = {
         let block = control_flow_graph.new_block()?;
 
+        // CA: the source is negative and a 1 bit is shifted out (assigned
+        // first: RA may be RS)
+        let shifted_out = Expression::and(
+            lhs.clone(),
+            expr_const((1u64 << (sh & 0x1f)) - 1, 32),
+        )?;
+        let carry = Expression::and(
+            Expression::cmplts(lhs.clone(), expr_const(0, 32))?,
+            Expression::cmpneq(shifted_out, expr_const(0, 32))?,
+        )?;
+        block.assign(scalar("carry", 1), carry);
         block.assign(dst, Expression::sra(lhs, rhs)?);
 
         block.index()
